@@ -6,6 +6,7 @@ import enccommon
 from vlib import fmt_list
 
 PID = 'C19'
+HANDLES_ABNORMAL = True
 RULE = ('encodation_plan with the hook counters: random structured inputs up to 3116 bytes, adversarial alternations (A1A1.., aAaA.., '
         'digit runs of every parity, bytes that keep several modes within a twelfth of a codeword of each other), all mode subsets and '
         'symbol lists; counters compared exactly with the model and with the proved bound; non-trivial = input of >= 8 bytes')
@@ -42,7 +43,9 @@ def gen_cases(rng, tier, ctx):
 
 
 def check_impl(c, out, ctx, prof):
-    if out.startswith('panic'):
+    if out == 'timeout':
+        return 'planning did not finish within the time limit (hang)'
+    if out.startswith('panic') or out == 'not-run' or out.startswith('crash'):
         return None
     parts = out.split(' ')
     steps, live, iters = int(parts[1]), int(parts[2]), int(parts[3])
